@@ -57,19 +57,20 @@ def setup(ctx, energy_dependent=()):
 
 
 def d2o_helper(ctx):
-    """the private function shared by D2O_match and D2O_sld that computes the four component SLDs (found by its callers)"""
-    c = callees_in_common(ctx, "nsf.D2O_match", "nsf.D2O_sld", exclude=("nsf.mix_values",))
-    c = [q_ for q_ in c if q_.rsplit(".", 1)[-1].startswith("_")] or c
-    if len(c) > 1:
-        # several shared helpers (validation, argument handling ...): the one that computes SLDs reaches the SLD calculator
-        import networkx as nx
-        cg = ctx.src.callgraph()
-        calc = {ctx.src.func(q_).qual for q_ in ("nsf.neutron_sld", "nsf.neutron_scattering")}
-        c2 = [q_ for q_ in c if q_ in cg and calc & set(nx.descendants(cg, q_))]
-        c = c2 or c
-    if len(c) != 1:
-        raise AnalysisError(f"expected one helper shared by D2O_match and D2O_sld, found {c}")
-    return c[0]
+    """the private function shared by D2O_match and D2O_sld that computes the four component SLDs - found by its role: a
+    private module-level function that both public functions reach (directly or through a small class) and that itself
+    reaches the SLD calculator; the top-most one if several qualify"""
+    import networkx as nx
+    cg = ctx.src.callgraph()
+    a, b = (ctx.src.func(q_).qual for q_ in ("nsf.D2O_match", "nsf.D2O_sld"))
+    calc = {ctx.src.func(q_).qual for q_ in ("nsf.neutron_sld", "nsf.neutron_scattering")}
+    common = (set(nx.descendants(cg, a)) if a in cg else set()) & (set(nx.descendants(cg, b)) if b in cg else set())
+    c = sorted(q_ for q_ in common if q_.count(".") == 1 and q_.rsplit(".", 1)[-1].startswith("_") and q_ not in calc
+               and calc & set(nx.descendants(cg, q_)))
+    top = [q_ for q_ in c if not any(o_ != q_ and q_ in nx.descendants(cg, o_) for o_ in c)]
+    if len(top) != 1:
+        raise AnalysisError(f"expected one helper shared by D2O_match and D2O_sld, found {top or c}")
+    return top[0]
 
 
 def run(ctx):
